@@ -50,6 +50,7 @@ fn regress(id: &str, ctx: &Ctx, f: fn(&Ctx, &Value)) {
 }
 
 props! {
+    "C01" => c01,
     "C02" => c02,
     "C03" => c03,
     "C04" => c04,
